@@ -24,8 +24,9 @@ GENERATED = ["LifecycleGen.v"]
 RULE = ("lifecycle: a fixed family of registration trees (flat, one/two/nested sub-applications, receivers before and "
         "after add_subapp, generator- and class-style contexts) with every single and every pair of failing steps, plus "
         "random trees (<= 3 levels, <= 4 contexts per application) with random failure sets of size <= 4, each through "
-        "AppRunner and through web.run_app; shutdown: every placement of the shutdown moment relative to the request "
-        "phases (idle keep-alive, new, handler running/finishing within t/within 2t/never, body upload pending, pipelined) "
+        "AppRunner and through web.run_app, also with the failing steps raising CancelledError and (run_app) with the stop signal "
+        "arriving while a context is still suspended in its startup code; shutdown: every placement of the shutdown moment relative to the request "
+        "phases (idle keep-alive, new, handler running/finishing within t/within 2t/never, body upload pending, body received but read later, pipelined) "
         "(pipelined = 1-3 further requests parsed and queued behind the one in flight, which ends before/at/after the on_shutdown signal or in the iteration cleanup() starts in) on 1-4 in-memory connections under virtual time, with on_shutdown receivers taking 0 or s seconds.  "
         "Non-trivial = at least one context completed start-up (lifecycle) / at least one connection was not idle "
         "(shutdown); distinct by the canonical event log.")
@@ -39,7 +40,9 @@ TRUSTED = [
     "order, first exception propagates), contextlib.asynccontextmanager, real sockets/sites (replaced by in-memory ones)",
 ]
 ASSUMPTIONS = [
-    "Steps fail by raising an Exception subclass (not BaseException/CancelledError); cleanup() is called once.",
+    "Steps fail by raising an Exception subclass or CancelledError (not other BaseExceptions); cleanup() is called once; "
+    "when a step raises CancelledError, or the stop signal arrives while a context is suspended in its startup code, the "
+    "exception that finally leaves run_app is not compared with the model (asyncio task-cancellation bookkeeping).",
     "No new connection arrives after the sites were stopped (the in-memory harness opens none).",
     "Handlers react to cancellation at once (no handler swallows CancelledError).",
     "Model/implementation agreement is validated on the generated cases only.",
@@ -50,6 +53,23 @@ STEP_KINDS = ("en", "ex", "su", "sd", "cl")
 
 class StepError(Exception):
     pass
+
+
+class StepCancelled(asyncio.CancelledError):
+    """a step that raises CancelledError (e.g. a teardown doing `task.cancel(); await task`)"""
+
+
+class Fails(set):
+    """failing steps of a case; .cancels = those raising CancelledError instead of an Exception;
+    .hang = a context whose startup code is still suspended when the process is told to stop"""
+
+    def __init__(self, case):
+        super().__init__(case["fails"])
+        self.cancels = set(case.get("cancels") or [])
+        self.hang = case.get("hang")
+
+    def boom(self, name):
+        return StepCancelled(name) if name in self.cancels else StepError(name)
 
 
 # --------------------------------------------------------------------------------------------
@@ -102,8 +122,22 @@ def tree_apps(tree, path=()):
 
 def model_line(case) -> str:
     d = {"apprunner": "A", "run_app": "R"}[case["driver"]]
-    fails = ",".join(case["fails"]) if case["fails"] else "-"
+    fl = list(case["fails"]) + ([f"en{case['hang']}"] if case.get("hang") is not None else [])
+    fails = ",".join(fl) if fl else "-"
     return f"LIFE {d} {fails} {tree_tokens(case['tree'])}"
+
+
+def canon_for_compare(case, model_out: str, impl: str):
+    """Cases with CancelledError-raising steps or a context suspended in its startup code: the exception that
+    leaves run_app (FIN) depends on asyncio's task-cancellation bookkeeping, which the model does not describe,
+    and a cancelled startup surfaces as a plain CancelledError."""
+    if not (case.get("cancels") or case.get("hang") is not None):
+        return model_out, impl
+    m = [t for t in model_out.split() if not t.startswith("FIN:")]
+    i = [t for t in impl.split() if not t.startswith("FIN:")]
+    if case.get("hang") is not None:
+        m = ["SR:cancelled" if t == f"SR:en{case['hang']}" else t for t in m]
+    return " ".join(m), " ".join(i)
 
 
 class _Ids:
@@ -175,12 +209,18 @@ def _make_ctx(c, style, log, fails):
         async def ctx(app):
             if f"en{c}" in fails:
                 log.append(f"en{c}-")
-                raise StepError(f"en{c}")
+                raise fails.boom(f"en{c}")
+            if fails.hang == c:
+                try:
+                    await asyncio.Event().wait()      # suspended in its startup code until the task is cancelled
+                except BaseException:
+                    log.append(f"en{c}-")
+                    raise
             log.append(f"en{c}+")
             yield
             if f"ex{c}" in fails:
                 log.append(f"ex{c}-")
-                raise StepError(f"ex{c}")
+                raise fails.boom(f"ex{c}")
             log.append(f"ex{c}+")
         return ctx
 
@@ -189,14 +229,20 @@ def _make_ctx(c, style, log, fails):
             await asyncio.sleep(0)
             if f"en{c}" in fails:
                 log.append(f"en{c}-")
-                raise StepError(f"en{c}")
+                raise fails.boom(f"en{c}")
+            if fails.hang == c:
+                try:
+                    await asyncio.Event().wait()
+                except BaseException:
+                    log.append(f"en{c}-")
+                    raise
             log.append(f"en{c}+")
 
         async def __aexit__(self, *a):
             await asyncio.sleep(0)
             if f"ex{c}" in fails:
                 log.append(f"ex{c}-")
-                raise StepError(f"ex{c}")
+                raise fails.boom(f"ex{c}")
             log.append(f"ex{c}+")
 
     return lambda app: CM()
@@ -206,15 +252,17 @@ def _make_recv(k, u, log, fails):
     async def h(app):
         if f"{k}{u}" in fails:
             log.append(f"{k}{u}-")
-            raise StepError(f"{k}{u}")
+            raise fails.boom(f"{k}{u}")
         log.append(f"{k}{u}+")
     return h
 
 
 def _err_name(e: BaseException) -> str:
     from aiohttp import web
-    if isinstance(e, StepError):
+    if isinstance(e, (StepError, StepCancelled)) and e.args:
         return e.args[0]
+    if isinstance(e, asyncio.CancelledError):
+        return "cancelled"
     if isinstance(e, web.CleanupError):
         return "multi"
     return "OTHER:" + type(e).__name__
@@ -266,7 +314,7 @@ def impl_apprunner(case) -> str:
     from aiohttp import web
     from harness.common.loop import VLoop
     log: list[str] = []
-    fails = set(case["fails"])
+    fails = Fails(case)
     loop = VLoop()
     asyncio.set_event_loop(loop)
 
@@ -276,7 +324,7 @@ def impl_apprunner(case) -> str:
         ok = True
         try:
             await runner.setup()
-        except Exception as e:  # noqa
+        except (Exception, asyncio.CancelledError) as e:  # noqa
             ok = False
             log.append("SR:" + _err_name(e))
         if ok:
@@ -286,7 +334,7 @@ def impl_apprunner(case) -> str:
                 pass
         try:
             await runner.cleanup()
-        except Exception as e:  # noqa
+        except (Exception, asyncio.CancelledError) as e:  # noqa
             log.append("CR:" + _err_name(e))
 
     try:
@@ -304,21 +352,21 @@ def impl_run_app(case) -> str:
     from aiohttp import web, web_runner
     from harness.common.loop import VLoop
     log: list[str] = []
-    fails = set(case["fails"])
+    fails = Fails(case)
     loop = VLoop()
 
     class LogRunner(web.AppRunner):
         async def setup(self):
             try:
                 await super().setup()
-            except Exception as e:  # noqa
+            except BaseException as e:  # noqa
                 log.append("SR:" + _err_name(e))
                 raise
 
         async def cleanup(self):
             try:
                 await super().cleanup()
-            except Exception as e:  # noqa
+            except BaseException as e:  # noqa
                 log.append("CR:" + _err_name(e))
                 raise
 
@@ -330,7 +378,7 @@ def impl_run_app(case) -> str:
                 mock.patch("aiohttp.web.AppRunner", LogRunner):
             try:
                 web.run_app(app, loop=loop, print=None, access_log=None)
-            except Exception as e:  # noqa
+            except (Exception, asyncio.CancelledError) as e:  # noqa
                 fin = _err_name(e)
     finally:
         if not loop.is_closed():
@@ -389,80 +437,10 @@ def lifecycle_oracle(case, log: str):
     return None
 
 
-# known-finding signatures: each recognises one family of failing cases through the diagnosis the oracle
-# derived from the implementation's own log (never from the model)
-def _sig_startup_failure_subapp(case, params):
-    d = case.get("diag") or {}
-    return (d.get("kind") == "missing" and d.get("setup_raised") and not d.get("missing_in_root"))
+# every finding of this property is repaired in /repo (known_findings.d/C20.json lists them as fixed:<commit>);
+# there is no suppressing signature: any violation is reported
+SIGNATURES: dict = {}
 
-
-def _sig_cleanup_error_skips_rest(case, params):
-    d = case.get("diag") or {}
-    # (a raising on_shutdown receiver no longer matters: cleanup() runs the remaining phases in finally blocks)
-    return (d.get("kind") == "missing" and not d.get("setup_raised")
-            and d.get("cleanup_step_failed") and bool(d.get("after_first_cleanup_failure")))
-
-
-def _sig_shutdown_error_skips_cleanup(case, params):
-    d = case.get("diag") or {}
-    return (d.get("kind") == "missing" and not d.get("setup_raised") and d.get("shutdown_failed")
-            and d.get("all_started_missing") and not d.get("cleanup_step_failed"))
-
-
-def _sig_run_app_no_cleanup(case, params):
-    """(fixed:439e4f8) under run_app a start-up failure left even the ROOT's started contexts uncleaned"""
-    d = case.get("diag") or {}
-    return (d.get("kind") == "missing" and d.get("setup_raised") and case.get("driver") == "run_app"
-            and bool(d.get("missing_in_root")))
-
-
-SIGNATURES = {
-    "run_app_startup_failure_no_cleanup": _sig_run_app_no_cleanup,
-    "startup_failure_leaves_subapp_contexts": _sig_startup_failure_subapp,
-    "cleanup_error_skips_later_receivers": _sig_cleanup_error_skips_rest,
-    "on_shutdown_error_skips_cleanup": _sig_shutdown_error_skips_cleanup,
-}
-
-
-def cleanup_dfs_order(tree):
-    """steps of the on_cleanup signal in depth-first order, as (kind, id, app_path)"""
-    def go(t, path):
-        out = [("ctxs", [op[1] for op in t if op[0] == "ctx"], path)]
-        i = 0
-        for op in t:
-            if op[0] == "cl":
-                out.append(("cl", op[1], path))
-            elif op[0] == "sub":
-                out += go(op[1], path + (i,))
-                i += 1
-        return out
-    return go(tree, ())
-
-
-def refine_diag(case, log, diag):
-    """for `missing`: are all missing contexts behind the first failing clean-up receiver (depth-first)?"""
-    if diag.get("kind") != "missing":
-        return diag
-    ev = log.split()
-    failed = [e[:-1] for e in ev if (e.startswith("ex") or e.startswith("cl")) and e.endswith("-")]
-    order = cleanup_dfs_order(case["tree"])
-    pos = None
-    for i, (k, v, path) in enumerate(order):
-        if (k == "ctxs" and any(f"ex{c}" in failed for c in v)) or (k == "cl" and f"cl{v}" in failed):
-            pos = i
-            break
-    if pos is None:
-        diag["after_first_cleanup_failure"] = False
-        return diag
-    later = set()
-    for k, v, path in order[pos + 1:]:
-        if k == "ctxs":
-            later.update(v)
-    diag["after_first_cleanup_failure"] = all(c in later for c in diag["ctxs"])
-    return diag
-
-
-# --------------------------------------------------------------------------------------------
 
 def build_model():
     # Other checks running concurrently regenerate EVERY coq/Generated file from THEIR repo (VERIF_REPO may point
@@ -492,13 +470,30 @@ def gen_lifecycle_cases(ctx):
         for fs in sets:
             for d in ("apprunner", "run_app"):
                 cases.append({"suite": "lifecycle", "driver": d, "tree": tree, "fails": list(fs)})
+        # the same failures raised as CancelledError (a teardown doing `task.cancel(); await task`)
+        for fs in [(s,) for s in steps if s != "site"] + [p for p in pairs[:10] if "site" not in p]:
+            for d in ("apprunner", "run_app"):
+                cases.append({"suite": "lifecycle", "driver": d, "tree": tree, "fails": list(fs),
+                              "cancels": [x for x in fs if rng.random() < 0.7] or [fs[0]]})
+        # run_app told to stop (SIGTERM -> GracefulExit) while context c is still suspended in its startup code
+        for c in [int(x[2:]) for x in steps if x.startswith("en")]:
+            for extra in ([], [rng.choice([x for x in steps if x.startswith("ex")])]):
+                cases.append({"suite": "lifecycle", "driver": "run_app", "tree": tree, "fails": extra, "hang": c})
     for _ in range(600 if ctx.quick else 12000):
         tree = rand_tree(rng, _Ids())
         steps = tree_steps(tree) + ["site"]
         k = rng.choice([0, 1, 1, 1, 2, 2, 3, 4])
         fs = sorted(rng.sample(steps, min(k, len(steps))))
         for d in ("apprunner", "run_app"):
-            cases.append({"suite": "lifecycle", "driver": d, "tree": tree, "fails": fs})
+            case = {"suite": "lifecycle", "driver": d, "tree": tree, "fails": fs}
+            r = rng.random()
+            if r < 0.25 and fs:
+                case["cancels"] = [x for x in fs if x != "site" and rng.random() < 0.6]
+            elif r < 0.35 and d == "run_app":
+                ens = [int(x[2:]) for x in steps if x.startswith("en") and x not in fs]
+                if ens:
+                    case["hang"] = rng.choice(ens)
+            cases.append(case)
     return cases
 
 
@@ -510,18 +505,24 @@ def check_lifecycle_case(ctx, case, model_out, record=True):
         ctx.case(("lifecycle", impl), nontrivial=nontriv)
         ctx.count(f"lifecycle:driver:{case['driver']}")
         ctx.count(f"lifecycle:failing_steps:{len(case['fails'])}")
+        if case.get("cancels"):
+            ctx.count("lifecycle:steps_raising_CancelledError", len(case["cancels"]))
+        if case.get("hang") is not None:
+            ctx.count("lifecycle:signal_while_context_suspended_in_startup")
         for f in case["fails"]:
             ctx.count("lifecycle:fail_kind:" + ("site" if f == "site" else f[:2]))
         ctx.count("lifecycle:setup_raised" if "SR:" in impl else "lifecycle:setup_ok")
         if "CR:" in impl:
             ctx.count("lifecycle:cleanup_raised")
-    if model_out is not None and model_out != impl:
-        ctx.disagreement("lifecycle", case, model_out, impl)
-        res["disagree"] = True
+    if model_out is not None:
+        cm, ci = canon_for_compare(case, model_out, impl)
+        if cm != ci:
+            ctx.disagreement("lifecycle", case, model_out, impl)
+            res["disagree"] = True
     bad = lifecycle_oracle(case, impl)
     if bad:
         what, diag = bad
-        vcase = dict(case, diag=refine_diag(case, impl, diag), impl_log=impl)
+        vcase = dict(case, diag=diag, impl_log=impl)
         res.update(violates=True, why=what, diag=vcase["diag"])
         if record:
             ctx.violation(vcase, "lifecycle: " + what + f"; log: {impl}")
@@ -534,7 +535,7 @@ def suite_lifecycle(ctx, exe):
         c = json.load(open(p))
         c = c.get("case", c)
         if c.get("suite") == "lifecycle":
-            cases.append({k: c[k] for k in ("suite", "driver", "tree", "fails")})
+            cases.append({k: c[k] for k in ("suite", "driver", "tree", "fails", "cancels", "hang") if k in c})
             ctx.count("lifecycle:corpus")
     cases += gen_lifecycle_cases(ctx)
     # without a model runner (its build is a broken obligation already) the property oracle still searches
@@ -569,6 +570,8 @@ def shut_model_phase(c) -> str:
         return "hinf" if d is None else f"h{d}"
     if ph == "u":
         return "uinf" if d is None else f"u{d}"
+    if ph == "r":
+        return f"r{d}"
     raise ValueError(ph)
 
 
@@ -648,7 +651,11 @@ def impl_shutdown(case):
             return web.Response(text="ok")
         dur = request.headers.get("X-Dur")
         try:
-            if request.headers.get("X-Body"):
+            if request.headers.get("X-Body") == "late":
+                # the whole body has been received already; it is read only after `dur` ms
+                await asyncio.sleep(int(dur) / 1000.0)
+                await request.read()
+            elif request.headers.get("X-Body"):
                 await request.read()
             elif dur == "gate":
                 await gate.wait()
@@ -677,10 +684,10 @@ def impl_shutdown(case):
     app.on_shutdown.append(on_sd)
     conns = []
 
-    def req(cid, path="/", dur="0", body_len=None):
+    def req(cid, path="/", dur="0", body_len=None, body_mode="1"):
         h = f"GET {path} HTTP/1.1\r\nHost: x\r\nX-Conn: {cid}\r\nX-Dur: {dur}\r\n"
         if body_len is not None:
-            h += f"X-Body: 1\r\nContent-Length: {body_len}\r\n"
+            h += f"X-Body: {body_mode}\r\nContent-Length: {body_len}\r\n"
         return (h + "\r\n").encode()
 
     try:
@@ -718,6 +725,8 @@ def impl_shutdown(case):
                 proto.data_received(req(cid, "/", dur) + b"".join(req(cid, f"/queued{j}") for j in range(c.get("k", 1))))
             elif ph == "u":
                 proto.data_received(req(cid, "/", "0", body_len=10) + b"12345")
+            elif ph == "r":
+                proto.data_received(req(cid, "/", dur, body_len=10, body_mode="late") + b"1234567890")
             loop.run_until_idle()
         t0[0] = loop.time()
         for cid, c in enumerate(case["conns"]):
@@ -754,7 +763,7 @@ def impl_shutdown(case):
             glob_obs["open_at_return"] = [i for i, (p, tr) in enumerate(conns) if not tr.closed]
         else:
             for i, c in enumerate(case["conns"]):
-                if c["phase"] in ("h", "pipe", "u") and obs[i]["handler"] == "none":
+                if c["phase"] in ("h", "pipe", "u", "r") and obs[i]["handler"] == "none":
                     obs[i]["handler"] = "stuck"
     finally:
         over[0] = True
@@ -791,7 +800,7 @@ def shutdown_oracle(case, obs, glob_obs):
     """Property clauses evaluated on the implementation's observables only.  Returns [(what, diag)]."""
     t, s = case["t"], case["s"]
     bad = []
-    bound = s + 2 * t + 2000          # twice the timeout after the on_shutdown signal, + rounding of two deadlines
+    bound = s + 2 * max(t, 0) + 2000  # twice the timeout after the on_shutdown signal, + rounding of two deadlines
     for i, (c, o) in enumerate(zip(case["conns"], obs)):
         ph, d = c["phase"], c.get("d")
         if o["late"]:
@@ -807,55 +816,31 @@ def shutdown_oracle(case, obs, glob_obs):
                 bad.append((f"connection {i} ({ph}) was idle when shutdown began but its transport was still open when the "
                             f"on_shutdown receivers started (closed at {o['closed']} ms)",
                             {"kind": "idle_open_during_on_shutdown", "conn": i, "closed": o["closed"], "s": s}))
-        if ph in ("h", "pipe") and d is not None and t > 0 and d <= s + t and not o["handler"].startswith("done@"):
+        # (a handler that touches its request body exactly at the deadline races the deadline: strict for r)
+        if ph in ("h", "pipe", "r") and d is not None and not o["handler"].startswith("done@") and (
+                (t > 0 and (d < s + t or (d == s + t and ph != "r"))) or d <= s):
             bad.append((f"connection {i}: handler needing {d} ms (<= on_shutdown {s} + timeout {t}) did not complete: {o['handler']}",
                         {"kind": "inflight_cut_short", "conn": i, "handler": o["handler"]}))
-        if ph == "u" and d is not None and t > 0 and d <= s + t and not o["handler"].startswith("done@"):
+        if ph == "u" and d is not None and t > 0 and d < s + t and not o["handler"].startswith("done@"):
             bad.append((f"connection {i}: handler waiting for body bytes that the peer sent {d} ms after shutdown began "
                         f"(<= on_shutdown {s} + timeout {t}) did not complete: {o['handler']}",
                         {"kind": "upload_starved", "conn": i, "handler": o["handler"], "body_sent": o["body_sent"]}))
-        if ph in ("h", "pipe", "u"):
+        if ph in ("h", "pipe", "u", "r"):
             h = o["handler"]
-            if t > 0:
-                at = int(h.split("@")[1]) if "@" in h else None
-                if at is None or at > bound:
-                    bad.append((f"connection {i}: handler neither completed nor was cancelled within on_shutdown + 2 x timeout "
-                                f"(+2 s rounding) = {bound} ms: {h}", {"kind": "overdue", "conn": i, "handler": h}))
-            elif h == "stuck" or not ("@" in h):
-                bad.append((f"connection {i}: shutdown_timeout={t} ms but the handler was never cancelled: {h}",
-                            {"kind": "stuck", "conn": i, "handler": h, "t": t}))
+            at = int(h.split("@")[1]) if "@" in h else None
+            if at is None or at > bound:
+                bad.append((f"connection {i}: handler neither completed nor was cancelled within on_shutdown + 2 x timeout "
+                            f"(+2 s rounding) = {bound} ms (shutdown_timeout={t} ms): {h}",
+                            {"kind": "overdue", "conn": i, "handler": h, "t": t}))
     if glob_obs["returned"] is None:
-        if t > 0 or not any(d.get("kind") == "stuck" for _, d in bad):
-            bad.append(("runner.cleanup() never returned", {"kind": "cleanup_never_returns", "t": t}))
+        bad.append(("runner.cleanup() never returned", {"kind": "cleanup_never_returns", "t": t}))
     else:
         if glob_obs["open_at_return"]:
             bad.append((f"connections {glob_obs['open_at_return']} still open when cleanup() returned",
                         {"kind": "open_after_cleanup", "conns": glob_obs["open_at_return"]}))
-        if t > 0 and glob_obs["returned"] > bound:
+        if glob_obs["returned"] > bound:
             bad.append((f"cleanup() returned after {glob_obs['returned']} ms > {bound} ms", {"kind": "cleanup_overdue"}))
     return bad
-
-
-def _sig_idle(case, params):
-    d = case.get("diag") or {}
-    return d.get("kind") == "idle_open_during_on_shutdown" and d.get("closed") is not None and d.get("closed") == d.get("s")
-
-
-def _sig_upload(case, params):
-    d = case.get("diag") or {}
-    return d.get("kind") == "upload_starved" and d.get("body_sent") and str(d.get("handler", "")).startswith("cancel@")
-
-
-def _sig_stuck(case, params):
-    d = case.get("diag") or {}
-    return d.get("kind") == "stuck" and d.get("t", 1) <= 0
-
-
-SIGNATURES.update({
-    "idle_not_closed_by_pre_shutdown": _sig_idle,
-    "inflight_body_dropped_after_pre_shutdown": _sig_upload,
-    "nonpositive_timeout_waits_forever": _sig_stuck,
-})
 
 
 def gen_shutdown_cases(ctx):
@@ -879,11 +864,15 @@ def gen_shutdown_cases(ctx):
         # signal), or is woken in the very iteration cleanup() starts in (d = 0), with 1..3 requests queued behind it
         singles += [{"phase": "pipe", "d": d, "k": k} for k in (1, 3) for d in sorted({0, 125, s - 125, s + 125}) if d >= 0]
         singles += [{"phase": "h", "d": 0}]
+        # the whole body was received before shutdown; the handler reads it d ms after T0
+        singles += [{"phase": "r", "d": d} for d in pl]
         singles += [{"phase": "u", "d": d} for d in (125, s + 125, s + t - 125, s + t + 125) if d > 0]
         for c in singles:
             lates = [None, 125] + ([s - 125] if s > 250 else []) + [s + 125]
             if ctx.quick and c["phase"] not in ("idle", "new", "partial"):
                 lates = [None, rng.choice(lates[1:])]
+            if c["phase"] in ("u",):
+                lates = [None]      # whatever the peer sends next on this connection IS the awaited body
             for late in lates:
                 cases.append({"suite": "shutdown", "t": t, "s": s, "off": off, "conns": [dict(c, late=late)]})
     cfgs2 = cfgs + [(0, 0, 0), (0, 250, 0)]
@@ -892,7 +881,7 @@ def gen_shutdown_cases(ctx):
         pl = placements(max(t, 1000), s)
         conns = []
         for _ in range(rng.randint(2, 4)):
-            ph = rng.choice(["idle", "new", "partial", "h", "h", "h", "pipe", "u"])
+            ph = rng.choice(["idle", "new", "partial", "h", "h", "h", "pipe", "u", "r"])
             c = {"phase": ph}
             if ph == "pipe":
                 c["k"] = rng.randint(1, 3)
@@ -902,7 +891,9 @@ def gen_shutdown_cases(ctx):
                     c["d"] = None
             elif ph == "u":
                 c["d"] = rng.choice([125, s + 125, s + max(t, 1000) - 125, None])
-            c["late"] = rng.choice([None, None, 125, s + 125, max(125, s - 125)])
+            elif ph == "r":
+                c["d"] = rng.choice(pl)
+            c["late"] = None if ph == "u" else rng.choice([None, None, 125, s + 125, max(125, s - 125)])
             conns.append(c)
         cases.append({"suite": "shutdown", "t": t, "s": s, "off": off, "conns": conns})
     return cases
@@ -915,7 +906,7 @@ def check_shutdown_case(ctx, case, model_lines_out, record=True):
     ties = shut_has_ties(case)
     if record:
         ctx.case(("shutdown", case["t"], case["s"], case["off"], tuple(impl)),
-                 nontrivial=any(c["phase"] in ("h", "pipe", "u") for c in case["conns"]))
+                 nontrivial=any(c["phase"] in ("h", "pipe", "u", "r") for c in case["conns"]))
         ctx.count(f"shutdown:conns:{len(case['conns'])}")
         for c, o in zip(case["conns"], obs):
             ctx.count("shutdown:phase:" + c["phase"])
@@ -970,7 +961,7 @@ def run(ctx):
 def replay(ctx, case):
     ok, exe = build_model()
     if case.get("suite") == "lifecycle":
-        c = {k: case[k] for k in ("suite", "driver", "tree", "fails")}
+        c = {k: case[k] for k in ("suite", "driver", "tree", "fails", "cancels", "hang") if k in case}
         m = fw.run_model(exe, [model_line(c)])[0] if ok else None
         return check_lifecycle_case(ctx, c, m, record=False)
     if case.get("suite") == "shutdown":
